@@ -844,6 +844,13 @@ impl CelValueDyn for CelValue {
                             CelValue::false_()
                         }
                     }
+                    // equality is symmetric: a number or name on the left meets an enum
+                    // on the right exactly as the other way round
+                    #[cfg(feature = "protobuf")]
+                    (
+                        lhs @ (CelValue::Int(_) | CelValue::UInt(_) | CelValue::String(_)),
+                        rhs @ CelValue::Enum { .. },
+                    ) => CelValueDyn::eq(&rhs, &lhs),
                     (CelValue::Dyn(d), rhs) => d.eq(&rhs),
                     // (_a, _b) => CelValue::from_err(CelError::invalid_op(&format!(
                     //     "Invalid op '==' between {:?} and {:?}",
